@@ -212,4 +212,22 @@ PROPS = {
         "assumptions": RUN_ASSUME + ["schedule points are source-level; preemption inside a statement or inside library code is not explored",
                                      "the three sites of open finding K6r are excluded from the sweep and counted"],
     },
+    "C12": {
+        "test": "TestC12", "binary": "sched", "level": "exploration",
+        "rule": "model-based histories against RunnableStep.Start of the real plugin provider (scripted deployer): rounds of 1-2 concurrently "
+                "started environment actions - provide deploy input (none / valid / invalid), enabled (true / false), starting input (valid / "
+                "invalid / nil), stop condition, any of them again, Close, ForceClose, release the held deployment, release the held plugin - over "
+                "generated environments (deployment held / failing / schema mismatch / write-refusing; plugin result success / error / crash / bad "
+                "output / undeclared output / never-ending, reacting to cancel at once / late / never; with and without signal handler), usually "
+                "starting with the inputs that advance the step, optional quiescence between rounds, and in half of the cases a random delay plan "
+                "on the provider's schedule points. invariants after every round and at the end: each stage finished at most once and never both "
+                "finished and impossible, every (stage, output) declared by Lifecycle(), exactly one completion, State()==finished after close, "
+                "Close/ForceClose return and are idempotent, no notification begins after the first Close returned, second provision refused, "
+                "invalid starting input refused, every ProvideStageInput returns within 1 s, deployments == closes, no goroutine left. "
+                "non-trivial = a concurrent round, or a close in a history where the plugin is also released",
+        "quick": {"cases": 480, "shards": 16, "shrinktime": "30s", "timeout_s": 1200},
+        "thorough": {"cases": 12000, "shards": 16, "shrinktime": "120s", "timeout_s": 3000},
+        "assumptions": ["a stop condition is only provided to steps whose plugin step has a cancel-signal handler (the lifecycle schema disables stop_if otherwise and Prepare rejects such workflows)",
+                        "a panic of the SDK's plugin-side ATP server (send on closed channel) is a harness artefact and discards the case"],
+    },
 }
